@@ -1289,6 +1289,8 @@ def _job_fullpath(job):
                 case(label, d2, expect_valid=ev)
         # a far-apart edit as well
         case("source-size+7-mtime+3600", C, extra=" ;; x\n\n", mtime=T + 3600)
+        # a source dated beyond the 32-bit range of the header's mtime field (file systems allow it)
+        case("source-mtime-2^32+%d" % (T % 100000), C, mtime=2**32 + T % 100000)
     out["writer"] = wstats
     return out
 
@@ -1373,6 +1375,8 @@ def _run_children(specs, workers=None):
         while pending and len(running) < workers:
             i, sp = pending.pop(0)
             Path(sp["file"]).write_text(json.dumps(sp["job"]))
+            if isinstance(sp["prefix"], _LazyPrefix) and not os.path.exists(sp["prefix"]):
+                shutil.copytree(sp["prefix"].src, sp["prefix"])
             logf = open(sp["log"], "wb")
             p = subprocess.Popen(
                 [sys.executable, os.path.abspath(__file__), "child", sp["file"]],
@@ -1405,17 +1409,22 @@ def _run_children(specs, workers=None):
                 raise env.HarnessError("C14 child (%s) failed:\n%s" % (sp["job"]["kind"], payload["err"]))
             results[i] = payload["ok"]
             outp.unlink()
+            for d in sp.get("cleanup", ()):
+                shutil.rmtree(d, ignore_errors=True)
     return results
+
+
+class _LazyPrefix(str):
+    """path of a private copy of a writer's cache prefix; the copy is made when the child is spawned"""
+
+    src = None
 
 
 def _fresh_prefix(src_prefix):
     st = _state()
     st["n"] += 1
-    dst = os.path.join(st["dir"], "pc%04d" % st["n"])
-    if src_prefix:
-        shutil.copytree(src_prefix, dst)
-    else:
-        os.makedirs(dst)
+    dst = _LazyPrefix(os.path.join(st["dir"], "pc%04d" % st["n"]))
+    dst.src = src_prefix
     return dst
 
 
@@ -1643,7 +1652,9 @@ def _plan_fullpath(tier, writer):
 
 def _fullpath_spec(warm_prefix, sc, spec, perturb):
     gen = _fresh_gen()
-    return _mkjob("fullpath", 0, _fresh_prefix(warm_prefix), gen, target=sc[0], top=sc[1], reset=sc[2], lengths=spec, perturb=perturb)
+    sp = _mkjob("fullpath", 0, _fresh_prefix(warm_prefix), gen, target=sc[0], top=sc[1], reset=sc[2], lengths=spec, perturb=perturb)
+    sp["cleanup"] = [sp["prefix"], gen]
+    return sp
 
 
 
@@ -1753,6 +1764,16 @@ def run(tier, seed):
     for s in seeds:
         _judge_writer(res, s, names, writers[s]["out"])
     res.part("stage1", writers=len(seeds), namespaces=len(names), wall_s=round(time.time() - t0, 1))
+    # harness self-check (not an oracle): the snapshot function itself does not depend on the hash seed
+    for ns in names:
+        views = [_view(writers[s]["out"]["ns"][ns]) for s in seeds if "error" not in writers[s]["out"]["ns"][ns]]
+        if all(v == views[0] for v in views[1:]):
+            res.part("stage1", source_snapshots_equal_across_seeds=1)
+        else:
+            d = []
+            for v in views[1:]:
+                _diff(views[0], v, "", d, limit=2)
+            res.notes.append("from-source snapshot of %s differs between hash seeds (compared per reader seed only): %s" % (ns, json.dumps(d)[:300]))
     if any("error" in writers[s]["out"]["ns"][BIG] for s in seeds):
         return res
     w0 = writers[seeds[0]]
@@ -1764,18 +1785,26 @@ def run(tier, seed):
         pairs = pairs[seed % len(pairs) :] + pairs[: seed % len(pairs)]
     for w, r in pairs:
         specs.append(_mkjob("load", r, _fresh_prefix(writers[w]["prefix"]), st["gen"], names=names, probes={n: PROBES.get(n, []) for n in names}))
+        specs[-1]["cleanup"] = [specs[-1]["prefix"]]
         tags.append(("pair", (w, r)))
     small = GEN_ORDER + (DECODE_BUNDLED_QUICK if tier == "quick" else [b for b in bundled if b != BIG])
     bins, dcaps, dinfo = _plan_decode(tier, w0, small, 3 if tier == "quick" else max(4, env.ncores()))
     for items in bins:
         specs.append(_mkjob("decode", 0, _fresh_prefix(w0["prefix"]), st["gen"], items=items))
+        specs[-1]["cleanup"] = [specs[-1]["prefix"]]
         tags.append(("decode", None))
     shards, fcaps = _plan_fullpath(tier, w0)
     for sc, spec, perturb, _ex in shards:
         specs.append(_fullpath_spec(w0["prefix"], sc, spec, perturb))
         tags.append(("fullpath", sc))
     # longest first: fullpath shards of the slow namespaces, then decode, then the readers
-    order = sorted(range(len(specs)), key=lambda i: {"fullpath": 0, "decode": 1, "pair": 2}[tags[i][0]])
+    def _prio(i):
+        kind, key = tags[i]
+        if kind == "fullpath":
+            return (0, 0 if key[0] in ("c14g.types", "c14g.dep") else 1 if key[0] in GEN_RICH else 2)
+        return ({"decode": 1, "pair": 2}[kind], 0)
+
+    order = sorted(range(len(specs)), key=_prio)
     outs = [None] * len(specs)
     for i, o in zip(order, _run_children([specs[i] for i in order])):
         outs[i] = o
